@@ -87,7 +87,7 @@ class ModuleInfo:
     self.name = name
     self.path = path
     self.source = source
-    self.tree = inline_new_temporaries(orient_comparisons(ast.parse(source, filename=path)), rel)
+    self.tree = inline_new_temporaries(orient_comparisons(desugar_assignments(ast.parse(source, filename=path))), rel)
     self.imports = {}     # local name -> ('module', modname) | ('symbol', modname, sym)
     self.functions = {}   # top-level name -> FuncInfo
     self.classes = {}     # top-level name -> ClassInfo
@@ -411,6 +411,66 @@ def _constant_like(n):
 
 
 _MIRROR = {ast.Gt: ast.Lt, ast.GtE: ast.LtE}
+
+
+def desugar_assignments(tree):
+  """Normalisation applied to every parsed module before any rule sees it: an assignment of a tuple display to a tuple of
+  targets of the same length (`a, b = x, y`) becomes the sequence `a = x; b = y`, and a chained assignment `a = b = v` becomes
+  `a = v; b = v` - whenever that is the same program: no later right-hand side reads an earlier target, and a repeated value
+  contains no call / yield / await / walrus and reads none of the targets.  Everything else is left as written.  The engines
+  (write logs, reaching definitions, invariants, role discovery) then see one store per statement, however the source groups
+  them.  Positions of the new statements are those of the original."""
+  def reads(expr, target_texts):
+    return any(ast.unparse(x) in target_texts for x in ast.walk(expr) if isinstance(x, (ast.Name, ast.Attribute, ast.Subscript)))
+
+  def pure(expr):
+    return not any(isinstance(x, (ast.Call, ast.Yield, ast.YieldFrom, ast.Await, ast.NamedExpr)) for x in ast.walk(expr))
+
+  def split(st):
+    if not isinstance(st, ast.Assign):
+      return None
+    if len(st.targets) == 1 and isinstance(st.targets[0], (ast.Tuple, ast.List)) and isinstance(st.value, (ast.Tuple, ast.List)):
+      ts, vs = st.targets[0].elts, st.value.elts
+      if len(ts) == len(vs) and len(ts) >= 2 and not any(isinstance(x, ast.Starred) for x in ts + vs) and all(isinstance(t, (ast.Name, ast.Attribute, ast.Subscript)) for t in ts):
+        texts = [ast.unparse(t) for t in ts]
+        # sequential execution is the same iff no value reads a target stored before it, and the targets are distinct
+        if len(set(texts)) == len(texts) and not any(reads(vs[j], set(texts[:j])) for j in range(1, len(vs))) and \
+            not any(isinstance(t, ast.Subscript) and reads(t.slice, set(texts)) for t in ts):
+          return [ast.copy_location(ast.Assign(targets=[t], value=v, type_comment=None), st) for t, v in zip(ts, vs)]
+    # a, b = (x, y) if c else (u, v)   ->   if c: a = x; b = y   else: a = u; b = v     (c is evaluated once, before any store, either way)
+    if len(st.targets) == 1 and isinstance(st.targets[0], (ast.Tuple, ast.List)) and isinstance(st.value, ast.IfExp) and \
+        all(isinstance(arm, (ast.Tuple, ast.List)) and len(arm.elts) == len(st.targets[0].elts) for arm in (st.value.body, st.value.orelse)):
+      import copy
+      arms = []
+      for arm in (st.value.body, st.value.orelse):
+        one = split(ast.copy_location(ast.Assign(targets=[copy.deepcopy(st.targets[0])], value=arm, type_comment=None), st))
+        if one is None:
+          return None
+        arms.append(one)
+      return [ast.copy_location(ast.If(test=st.value.test, body=arms[0], orelse=arms[1]), st)]
+    if len(st.targets) >= 2 and all(isinstance(t, (ast.Name, ast.Attribute, ast.Subscript)) for t in st.targets) and pure(st.value):
+      texts = [ast.unparse(t) for t in st.targets]
+      if len(set(texts)) == len(texts) and not reads(st.value, set(texts)) and not any(reads(t, set(texts) - {ast.unparse(t)}) for t in st.targets if isinstance(t, ast.Subscript)):
+        import copy
+        return [ast.copy_location(ast.Assign(targets=[t], value=copy.deepcopy(st.value), type_comment=None), st) for t in st.targets]
+    return None
+  for owner in ast.walk(tree):
+    for field in ('body', 'orelse', 'finalbody'):
+      blk = getattr(owner, field, None)
+      if isinstance(blk, list) and blk and isinstance(blk[0], ast.stmt):
+        new = []
+        for st in blk:
+          parts = split(st)
+          new.extend(parts if parts else [st])
+        setattr(owner, field, new)
+    if isinstance(owner, ast.Try):
+      for h in owner.handlers:
+        new = []
+        for st in h.body:
+          parts = split(st)
+          new.extend(parts if parts else [st])
+        h.body = new
+  return tree
 
 
 def orient_comparisons(tree):
